@@ -123,8 +123,8 @@ def run_history(rac, ops, follow=True):
             rac.fail("queries " + hist, f"C03 [{hist}]: query answers for {k} differ from a fresh manager: {qa[k]} vs {qb[k]}",
                      G.history_script(done, IDX_TAIL), "Manager.unregister")
         for fop in FOLLOW:
-            if fop[1] in orc.defs:
-                continue
+            if fop[1] in orc.defs or G.declared_cycle(w.m):
+                continue        # (a declared ordering cycle = known finding K1 of C01: the order inside it is arbitrary in both managers)
             w.apply(fop)
             w2.apply(fop)
             if not all(G.close(w.actual()[l], w2.actual()[l]) for l in G.LOCS):
